@@ -101,7 +101,9 @@ Candidates(L, rq, x) ==
   { T \in StoredToks(L) \cap DOMAIN L.tk :
       /\ L.tk[T].rq.u = rq.u /\ L.tk[T].x < x
       /\ T \notin L.inval /\ T \notin L.fuzzy
-      /\ ~(\E p \in L.replacedFor : p[1] = T /\ p[2] = rq.sel)
+      \* a response that a newer stored one has superseded for some request is no longer
+      \* owed to anybody (whether it may still be served to other requests is left open)
+      /\ ~(\E p \in L.replacedFor : p[1] = T)
       /\ VariantMatch(L.eff[T].rep, L.tk[T].rq, rq) }
 
 OnBegin(L, e, line) ==
